@@ -7,7 +7,7 @@ SPEC = {
     "allowed_axioms": [],
     "harness_pkg": "hx_hnsw",
     "harness_bin": "c31",
-    "n": {"quick": 120, "thorough": 1000},
+    "n": {"quick": 80, "thorough": 1000},
     "harness_timeout": {"quick": 900, "thorough": 3000},
     "trusted_base": [
         "Coq 8.16.1 kernel + vm_compute (no native_compute); coqchk re-check in the thorough tier",
